@@ -573,19 +573,19 @@ func genSeqxCase(rng *hx.Rng, n int) []string {
 		case x < 84:
 			nsubs++
 			ops = append(ops, fmt.Sprintf("ctx %d", rng.Intn(2)))
-		case x < 89:
-			if len(logs) < 2 || rng.Chance(1, 3) {
+		case x < 91:
+			if len(logs) == 0 || rng.Chance(1, 3) {
 				logs = append(logs, nsubs)
 				nsubs++
 				ops = append(ops, fmt.Sprintf("log %d %d", rng.Intn(2), rng.Intn(2)))
 			} else {
 				ops = append(ops, fmt.Sprintf("level %d %d", logs[rng.Intn(len(logs))], rng.Intn(2)))
 			}
-		case x < 94:
+		case x < 95:
 			if nsubs > 0 {
 				ops = append(ops, fmt.Sprintf("unsub %d", rng.Intn(nsubs)))
 			}
-		case x < 96:
+		case x < 97:
 			ops = append(ops, "read")
 		default:
 			ops = append(ops, "state")
